@@ -165,3 +165,33 @@ Proof.
 Qed.
 
 End Lazy.
+
+(* the lazy aligned loop (permute, then read a block) in terms of the
+   block-level squeeze specification *)
+Section LazySpec.
+Variable f : bytes -> bytes.
+Variable rate : nat.
+Variable slen : nat.
+Hypothesis f_len : forall s, length s = slen -> length (f s) = slen.
+Hypothesis rate_pos : 0 < rate.
+Hypothesis rate_le : rate <= slen.
+
+Theorem lazy_aligned_c_spec st n : length st = slen ->
+  snd (lazy_aligned_c f rate st n) = spec_squeeze f rate (f st) n.
+Proof.
+  intros Hl. rewrite (lazy_aligned_c_serial f rate slen rate_pos rate_le).
+  pose proof (lazy_serial_sim f rate slen f_len rate_pos rate_le n st 0 rate_pos Hl) as [_ S].
+  rewrite S. unfold alpha. cbn [fst snd Nat.eqb]. unfold spec_squeeze.
+  pose proof (serial_spec bf_sq f rate slen f_len rate_pos rate_le (f st) (zeros n) (f_len _ Hl)) as SP.
+  destruct (serial bf_sq f rate (f st, 0) (zeros n)) as [[s1 pos] o]. destruct SP as [_ SP].
+  rewrite <- SP. reflexivity.
+Qed.
+
+Lemma spec_squeeze_length st n : length st = slen -> length (spec_squeeze f rate st n) = n.
+Proof.
+  intros Hl. unfold spec_squeeze.
+  destruct (spec_duplex_outlen bf_sq f rate slen f_len rate_pos rate_le st (zeros n) Hl) as [H _].
+  rewrite H. unfold zeros. apply repeat_length.
+Qed.
+
+End LazySpec.
